@@ -267,7 +267,22 @@ impl Session {
                 self.me[i] = "-".to_string();
             }
         }
-        let mut rec = json!({"kind": "http", "id": format!("{}#{}", self.scen, self.seq), "p": p.map(|x| x as i64 + 1).unwrap_or(0), "op": op, "args": args,
+        // the database commands issued while this request was in flight (plus, possibly, result writes of earlier tasks)
+        let during = self.ctrl.cmd(json!({"cmd": "log"}));
+        let mut dbcmds: Vec<Value> = Vec::new();
+        if let Some(a) = during["log"].as_array() {
+            for e in a {
+                let is_task_write = e["cmd"] == "update" && e["coll"] == "adf-problems"
+                    && e["update_keys"].as_array().map(|k| k.iter().any(|x| x.as_str().map(|s| s.starts_with("acs_per_strategy") || s == "adf").unwrap_or(false))).unwrap_or(false);
+                if is_task_write {
+                    self.expected_updates = self.expected_updates.saturating_sub(1);
+                }
+                let mut keys: Vec<String> = e["filter"].as_object().map(|m| m.keys().cloned().collect()).unwrap_or_default();
+                keys.sort();
+                dbcmds.push(json!({"cmd": e["cmd"], "coll": e["coll"], "keys": keys, "task": is_task_write, "n": e["n"]}));
+            }
+        }
+        let mut rec = json!({"kind": "http", "id": format!("{}#{}", self.scen, self.seq), "p": p.map(|x| x as i64 + 1).unwrap_or(0), "op": op, "args": args, "db": dbcmds,
                          "had_cookie": cookie.is_some(), "status": r.status, "body": body_j, "cookie_after": p.map(|i| self.jars[i].is_some()).unwrap_or(false),
                          "me": me_before});
         if self.final_phase {
@@ -505,7 +520,7 @@ fn race_rename_window(s: &mut Session) {
     let ra = t.join().unwrap();
     s.seq += 1;
     s.out.push(json!({"kind": "http", "id": format!("{}#{}", s.scen, s.seq), "p": 1, "op": "update", "args": {"username": "rwcarol", "password": "pw-A-1"}, "had_cookie": true,
-                      "status": ra.status, "body": {"text": ""}, "cookie_after": true, "concurrent": true, "me": "rwalice"}));
+                      "status": ra.status, "body": {"text": ""}, "cookie_after": true, "concurrent": true, "me": "rwalice", "db": []}));
     s.settle(true);
 }
 
